@@ -54,7 +54,7 @@ pub fn dup_menu() -> Vec<&'static str> {
 
 pub fn check_file(text: &str) -> Option<(String, String)> {
     let text_owned = text.to_string();
-    let r = guarded(move || {
+    let r = watch_text("file", text, || guarded(move || {
         let a = SourceFileAnalyzer::analyze(text_owned.clone());
         let lines: Vec<&str> = text_owned.split('\n').collect();
         if a.token_types().len() != lines.len() {
@@ -105,7 +105,7 @@ pub fn check_file(text: &str) -> Option<(String, String)> {
             }
         }
         None
-    });
+    }));
     match r {
         Ok(x) => x,
         Err(p) => Some((format!("panic {}", short_panic(&p)), format!("analyze panicked: {}", p))),
